@@ -241,7 +241,7 @@ class G:
         self.eids = ["https://e%d.c11.example/ent" % i for i in range(rng.randint(2, 4))]
         # which departure of the code from the property the case may exercise (never both: the
         # classifier must be able to name ONE root cause)
-        self.mode = rng.choice(["clean", "clean", "f9", "f11", "f18"])
+        self.mode = rng.choice(["clean", "clean", "f9", "f11"])
         self.mdq_cert = {}
         self.now = S.NOW0 + rng.randrange(0, 100000)
 
@@ -289,15 +289,9 @@ class G:
             roles = [{"kind": "affiliation", "protocols": [], "endpoints": [], "keys": [], "req_attrs": []}]
         else:
             kinds = [r.choice(KINDS[:5]) for _ in range(r.choice([1, 1, 1, 2, 2, 3]))]
-            if r.random() < (0.5 if self.mode == "f18" else 0.15):
+            if r.random() < 0.3:   # two descriptors of one kind, often disagreeing on SAML 2.0 support (F18, fixed)
                 kinds.append(kinds[0])
             roles = [self.role(eid, tag, k, single) for k in kinds]
-            if self.mode != "f18":  # descriptors of one kind agree on SAML 2.0 support (else: root cause F18)
-                first = {}
-                for ro in roles:
-                    f = first.setdefault(ro["kind"], ro)
-                    if (_st["c"]["p2"] in f["protocols"]) != (_st["c"]["p2"] in ro["protocols"]):
-                        ro["protocols"] = list(f["protocols"])
         attrs = []
         for _ in range(r.choice([0, 0, 1, 1, 2, 3])):
             name = r.choice([_st["c"]["ec"], _st["c"]["ec"], ECS, "urn:oid:1.3.6.1.4.1.5923.1.1.1.7"])
@@ -803,22 +797,9 @@ def compare(case, impl, model):
     return model is not None and impl["obs"] == model.get("obs")
 
 
-def _mixed(doc, p2):
-    """an entity with a non-SAML-2.0 descriptor beside a SAML 2.0 descriptor of the same kind"""
-    for e in doc["entities"]:
-        sup = {}
-        for ro in e["roles"]:
-            if ro["kind"] != "affiliation":
-                sup.setdefault(ro["kind"], set()).add(p2 in ro["protocols"])
-        if any(len(v) == 2 for v in sup.values()):
-            return True
-    return False
-
-
 def _features(case):
     """which inputs of the known root-cause classes the history contains"""
-    f9 = f11 = f18 = False
-    p2 = case["consts"]["p2"]
+    f9 = f11 = False
     mdq_cert = set()
     for st in case["steps"]:
         for sp in st["op"].get("specs", []):
@@ -827,8 +808,6 @@ def _features(case):
                 mdq_cert.add(sp["key"])
             if sp["kind"] in ("file", "remote") and sp["cert"] and f["t"] == "doc" and f["doc"]["sig"] == "unsigned":
                 f9 = True
-            if sp["kind"] not in ("mdq", "loader") and f["t"] == "doc" and _mixed(f["doc"], p2):
-                f18 = True
     for st in case["steps"]:
         for m in st.get("mdq") or []:
             f = m["fetch"]
@@ -837,9 +816,7 @@ def _features(case):
                     f9 = True
                 elif f["doc"]["sig"] != "valid":
                     f11 = True
-            if f["t"] == "doc" and _mixed(f["doc"], p2):
-                f18 = True
-    return f9, f11, f18
+    return f9, f11
 
 
 def finding_key(case, impl, lean):
@@ -847,13 +824,11 @@ def finding_key(case, impl, lean):
     class and none of the other, and (b) the implementation's observations are exactly what the
     reference machine gives once that ONE departure is granted (computed by the Lean driver)."""
     why = lean.get("why") or {}
-    f9, f11, f18 = _features(case)
-    if f9 and not f11 and not f18 and why.get("holds_if_unsigned_passes") is True:
+    f9, f11 = _features(case)
+    if f9 and not f11 and why.get("holds_if_unsigned_passes") is True:
         return "C11/unsigned-document-served-despite-cert"
-    if f11 and not f9 and not f18 and why.get("holds_if_mdq_stores_first") is True:
+    if f11 and not f9 and why.get("holds_if_mdq_stores_first") is True:
         return "C11/mdq-failed-verification-leaves-entity"
-    if f18 and not f9 and not f11 and why.get("holds_if_sibling_roles_kept") is True:
-        return "C11/non-saml2-role-served-beside-saml2-sibling"
     return None
 
 
